@@ -78,6 +78,7 @@ def faults(text, sp, full_truncation):
             yield "stray-end-tag", text[:b] + "</" + v + ">" + text[b:]
             yield "stray-text", text[:b] + "junk" + text[b:]
             yield "stray-text", text[:b] + " \n junk " + text[b:]
+            yield "stray-text", text[:b] + "\x1a junk" + text[b:]
     root = sp[0][1]
     # in front of the root
     yield "stray-end-tag", "</ZZ>" + text
@@ -88,6 +89,8 @@ def faults(text, sp, full_truncation):
     yield "second-top-level-element", text + "<" + root + "></" + root + ">"
     yield "second-top-level-element", text + "\n<ZZ>1</ZZ>"
     yield "second-top-level-element", text + text
+    yield "second-top-level-element", text + "\x1a<ZZ>1</ZZ>"
+    yield "stray-end-tag", text + "\x1a\x00</ZZ>"
 
 
 def lib_feed(text):
@@ -95,6 +98,27 @@ def lib_feed(text):
 
     tb = TreeBuilder()
     tb.feed(text)
+    return tb.close()
+
+
+def lib_feed_pieces(text):
+    """the same text handed to one TreeBuilder in three feed() calls, each cut made in front of the start tag of an
+    aggregate (so that no data element is separated from its data or end tag) - an application reading a download
+    chunk by chunk"""
+    import re
+
+    from ofxtools.Parser import TreeBuilder
+
+    cuts = [m.start() for m in re.finditer(r"<[A-Z0-9._]+>\s*<(?!!)", text) if m.start() > 0]
+    cuts = [i for i in cuts if text.rfind("<![CDATA[", 0, i) <= text.rfind("]]>", 0, i)]
+    tb = TreeBuilder()
+    if len(cuts) < 2:
+        tb.feed(text)
+        return tb.close()
+    a, b = cuts[len(cuts) // 3], cuts[(2 * len(cuts)) // 3]
+    for piece in (text[:a], text[a:b], text[b:]):
+        if piece:
+            tb.feed(piece)
     return tb.close()
 
 
@@ -129,7 +153,7 @@ def check_text(t, rendering, kind, faulty, case_fn):
         pass
     t.count("evaluations")
     t.count("faulty-texts")
-    for route, fn in (("feed", lambda: lib_feed(faulty)), ("parse", lambda: lib_parse(faulty, rendering == "sgml")), ("parse-by-a-reused-OFXTree", lambda: lib_parse_reused(faulty, rendering == "sgml"))):
+    for route, fn in (("feed", lambda: lib_feed(faulty)), ("feed-in-pieces", lambda: lib_feed_pieces(faulty)), ("parse", lambda: lib_parse(faulty, rendering == "sgml")), ("parse-by-a-reused-OFXTree", lambda: lib_parse_reused(faulty, rendering == "sgml"))):
         try:
             r = fn()
         except Exception:
@@ -306,7 +330,7 @@ def run(ctx):
         f" over the C02 alphabets, in XML and SGML rendering and (two or more data elements) with every data element CDATA-wrapped, + MIN/MAXS{'/MAXD' if ctx.thorough else ''} documents of {len(ROOTS)} realistic roots; x every single fault: "
         "truncation, each aggregate end tag deleted / duplicated / misspelled (2 ways) / replaced by every other element's name, adjacent end tags transposed, stray end "
         "tag (2) or stray text (2) after every end tag, second top-level element (3 behind, 2 in front of the root), an undecodable byte inside / behind every aggregate end tag of the v1 files (UTF-8 and Windows-1252), stray end tag / unclosed start tag in front of the root; faulty texts the strict reference reader still accepts are skipped; each remaining text "
-        "goes through TreeBuilder.feed+close, OFXTree.parse, and the parse of an OFXTree that has read a well-formed file before; + files parsed by path: every same-length fault of the documents written over the well-formed file "
+        "goes through TreeBuilder.feed+close (whole, and in three pieces cut in front of aggregate start tags), OFXTree.parse, and the parse of an OFXTree that has read a well-formed file before; + files parsed by path: every same-length fault of the documents written over the well-formed file "
         "(same path, size and modification time) after that one was parsed; distinct_nontrivial = malformed texts",
         "bodies": tally.counts.get("bodies", 0),
         "skipped_still_well_formed": tally.counts.get("still-well-formed", 0),
